@@ -73,6 +73,32 @@ pub fn rf_line<const N: usize>(df: Df, pre: &[u8], ri: usize, srw: &Srw, maxcall
     true
 }
 
+/// chunk lengths whose boundaries fall at interesting places of `data`: right after a CR (splitting CR|LF), right before / after a
+/// terminator, at multiples of 8 and 16, single bytes ("drip"), or buffer-sized
+pub fn boundary_chunks(data: &[u8], size: usize, rng: &mut Rng) -> Vec<usize> {
+    let mut out = vec![];
+    let mut pos = 0usize;
+    let drip = rng.chance(1, 5);
+    while pos < data.len() {
+        let rest = &data[pos..];
+        let next = |b: u8| rest.iter().position(|x| *x == b);
+        let mut cands: Vec<usize> = vec![1, 7, 8, 9, 16, 17, size.saturating_sub(1).max(1), size.max(1), size + 3];
+        if let Some(i) = next(b'\r') {
+            cands.extend([i + 1, i + 1, i + 2]);
+        }
+        if let Some(i) = next(b'\n') {
+            cands.extend([i.max(1), i + 1, i + 1, i + 2]);
+        }
+        if let Some(i) = next(0) {
+            cands.extend([i.max(1), i + 1]);
+        }
+        let k = if drip { 1 + rng.below(2) } else { cands[rng.below(cands.len())] }.max(1).min(rest.len());
+        out.push(k);
+        pos += k;
+    }
+    out
+}
+
 /// all compositions of n into positive parts, as chunk scripts
 fn compositions(n: usize) -> Vec<Vec<usize>> {
     if n == 0 {
@@ -104,6 +130,8 @@ pub fn dispatch(n: usize, df: Df, pre: &[u8], ri: usize, srw: &Srw, maxcalls: us
         33 => rf_line::<33>(df, pre, ri, srw, maxcalls, w),
         48 => rf_line::<48>(df, pre, ri, srw, maxcalls, w),
         64 => rf_line::<64>(df, pre, ri, srw, maxcalls, w),
+        96 => rf_line::<96>(df, pre, ri, srw, maxcalls, w),
+        128 => rf_line::<128>(df, pre, ri, srw, maxcalls, w),
         _ => false,
     }
 }
@@ -192,7 +220,7 @@ pub fn run(mode: &str, thorough: bool, seed: u64, w: &mut impl std::io::Write) {
     // long frames: frame lengths around the buffer size, chunk sizes around 8 / SIZE, bytes incl. >= 0x80
     let lcases = if thorough { 20000 } else { 2500 };
     for _ in 0..lcases {
-        let size = [16usize, 33, 48, 64][rng.below(4)];
+        let size = [16usize, 33, 48, 64, 96, 128][rng.below(6)];
         let df = [Df::Line, Df::Crlf, Df::Null, Df::Line][rng.below(4)];
         let term: &[u8] = match df { Df::Crlf => b"\r\n", Df::Null => b"\0", _ => b"\n" };
         let nf = 1 + rng.below(4);
@@ -220,8 +248,12 @@ pub fn run(mode: &str, thorough: bool, seed: u64, w: &mut impl std::io::Write) {
             let cut = rng.below(data.len() + 1);
             data.truncate(cut);
         }
-        let nc = rng.below(10);
-        let mut racts: Vec<RAct> = (0..nc).map(|_| RAct::Data([1usize, 7, 8, 9, size - 1, size, size + 5, 1000][rng.below(8)], rng.chance(1, 10))).collect();
+        let mut racts: Vec<RAct> = if rng.chance(1, 2) {
+            boundary_chunks(&data, size, &mut rng).into_iter().map(|k| RAct::Data(k, rng.chance(1, 12))).collect()
+        } else {
+            let nc = rng.below(10);
+            (0..nc).map(|_| RAct::Data([1usize, 7, 8, 9, size - 1, size, size + 5, 1000][rng.below(8)], rng.chance(1, 10))).collect()
+        };
         if errors && !racts.is_empty() {
             let pos = rng.below(racts.len() + 1);
             racts.insert(pos, if rng.chance(1, 6) { RAct::Panic } else { RAct::Err([2u8, 3, 4, 5, 6][rng.below(5)]) });
@@ -230,7 +262,7 @@ pub fn run(mode: &str, thorough: bool, seed: u64, w: &mut impl std::io::Write) {
         let pre: Vec<u8> = (0..pl).map(|i| b'p' + i as u8).collect();
         let ri = if pl > 1 { rng.below(pl) } else { 0 };
         let srw = mk(1, &data, racts);
-        if dispatch(size, df, &pre, ri, &srw, 40, w) {
+        if dispatch(size, df, &pre, ri, &srw, 60, w) {
             n += 1;
         }
     }
